@@ -117,6 +117,12 @@ def call_jobs(jobs):
     return asyncio.run(main())
 
 
+def _is_enum(tp):
+    import enum
+
+    return isinstance(tp, type) and issubclass(tp, enum.Enum)
+
+
 def tx_args(name, fields, body, kw):
     """(args, kwargs) for the argument form `kw`, or None"""
     vals, data = [], body
@@ -141,7 +147,7 @@ def run(ctx):
     rng = ctx.rng
     jobs, job_rows = [], []
     rows = []  # (kind, version, name, model line, impl, spec, note)
-    reps = ctx.n(2, 12)
+    reps = ctx.n(5, 16)
     n_pairs = 0
     for v in range(4, 15):
         h = ezsplib.handler(v)
@@ -208,6 +214,57 @@ def run(ctx):
                             job_rows.append((v, name, body, cid, f"call kw={kw} {vals}", reply[3] if reply else None))
                         except Exception:  # noqa: BLE001  (the _ezsp_frame row above reports it)
                             pass
+    # ---- scalar field types are transparent: the model lowers every enum / bitmap / integer type of n bytes to "n bytes, little
+    # endian"; every such type that occurs anywhere in a schema (also inside structs and lists) must decode every wire value to
+    # that number and encode it back to the same bytes (all 256 values of the one-byte types; members, extremes and random values
+    # of the wider ones)
+    import enum as _enum
+    import zigpy.types as _zt
+    scalar_types = {}
+
+    def _collect(tp):
+        if tp is None or not isinstance(tp, type):
+            return
+        if ezsplib._is(tp, _zt.Struct):
+            for f in tp.fields:
+                _collect(f.type)
+        elif ezsplib._is(tp, _zt.basic.FixedIntType):
+            scalar_types.setdefault(tp.__module__ + "." + tp.__qualname__, tp)
+        elif hasattr(tp, "_item_type"):
+            _collect(tp._item_type)
+
+    for v in range(4, 15):
+        mod = importlib.import_module(f"bellows.ezsp.v{v}.commands")
+        for name, (cid, tx, rx) in mod.COMMANDS.items():
+            for sch in (tx, rx):
+                for _, tp, _ in ezsplib.schema_fields(sch):
+                    _collect(tp)
+    for tname, tp in sorted(scalar_types.items()):
+        bits = getattr(tp, "_bits", 0)
+        if not bits or bits % 8:
+            continue
+        n = bits // 8
+        if n == 1:
+            vals = range(256)
+        else:
+            vals = sorted({0, 1, 256 ** n - 1, 256 ** n // 2, 256 ** n // 2 - 1} | {int(m) & (256 ** n - 1) for m in (tp if _is_enum(tp) else [])}
+                          | {rng.getrandbits(bits) for _ in range(40)})
+        for x in vals:
+            wire = int(x).to_bytes(n, "little")
+            ctx.cov["evaluations"] += 1
+            try:
+                val, rest = tp.deserialize(wire + b"\x5a")
+                num = int(val) & (256 ** n - 1)
+                back = val.serialize()
+                okay = num == x and back == wire and rest == b"\x5a"
+                got = f"value {num:#x}, re-encoded {hx(back)}, rest {hx(rest)}"
+            except Exception as e:  # noqa: BLE001
+                okay, got = False, f"raised:{type(e).__name__}"
+            if not okay:
+                ctx.violation(f"field type {tp.__name__}: wire bytes {hx(wire)} decode to {got}; the specification (a {n}-byte little-endian number, carried unchanged) gives value {x:#x}, re-encoded {hx(wire)}",
+                              {"kind": "scalar-type", "type": tp.__name__}, {"kind": "scalar", "type": tname, "wire": hx(wire)})
+                break
+        ctx.count("scalar_types_swept")
     nseq = {}
     for (v, name, body, cid, note, want_reply), (got, outcome) in zip(job_rows, call_jobs(jobs)):
         k = nseq.get(v, 0)
@@ -252,7 +309,18 @@ search = run
 def replay(ctx, obj):
     logging.disable(logging.CRITICAL)
     r = obj["replay"]
-    if r["kind"] == "tx-call":
+    if r["kind"] == "scalar":
+        import importlib as _il
+
+        modname, _, q = r["type"].rpartition(".")
+        tp = getattr(_il.import_module(modname), q)
+        wire = bytes.fromhex(r["wire"])
+        try:
+            val, _ = tp.deserialize(wire)
+            bad = None if (int(val) & (256 ** len(wire) - 1)) == int.from_bytes(wire, "little") and val.serialize() == wire else f"{r['type']}: {r['wire']} -> {int(val):#x} -> {hx(val.serialize())}"
+        except Exception as e:  # noqa: BLE001
+            bad = f"raised {type(e).__name__}"
+    elif r["kind"] == "tx-call":
         h = ezsplib.handler(r["version"])
         got = tx_impl(h, r["name"], [], b"", 0)
         bad = got if got.startswith("raised") else None
